@@ -215,6 +215,13 @@ digest_reports(const char *txt, const char *scenario)
 			}
 			if (stacks < 2)
 				lib = 0;
+			// "As if synchronized via sleep": the two accesses are ordered only by the
+			// harness's vs_settle()/vs_sleep() delay, i.e. the harness reused an aio or
+			// object on the assumption that the library had gone quiet - which is what
+			// the scheduler guarantees and a real-time delay does not.
+			const char *sl = strstr(p, "As if synchronized via sleep");
+			if (sl && sl < end)
+				lib = 0;
 		}
 		if (!lib) {
 			G.harness_only++;
@@ -310,6 +317,13 @@ vx_explore(const vx_cfg *cfg, vx_stats *out)
 			size_t      n = fread(buf, 1, sizeof(buf) - 1, f);
 			buf[n]        = 0;
 			fclose(f);
+			if (getenv("VS_FREE_RAW") && strstr(buf, "ThreadSanitizer")) {
+				FILE *r = fopen(getenv("VS_FREE_RAW"), "a");
+				if (r) {
+					fprintf(r, "##### %s run %d\n%s\n", cfg->scenario, r ? runs : 0, buf);
+					fclose(r);
+				}
+			}
 			digest_reports(buf, cfg->scenario);
 		}
 		// (no ENV choices: the same program again - real-time interleavings still differ)
